@@ -149,6 +149,17 @@ def point_triangle_residual(A, B, C, tri, q):
     return float(d[0])
 
 
+def point_edges_residual(A, B, C, tri, q):
+    """distance from q to the three edge segments of triangle tri: the whole point set of a zero-area triangle"""
+    best = np.inf
+    for a, b in ((A[tri], B[tri]), (B[tri], C[tri]), (C[tri], A[tri])):
+        ab = b - a
+        l2 = float(np.dot(ab, ab))
+        s = min(1.0, max(0.0, float(np.dot(q - a, ab)) / l2)) if l2 > 0 else 0.0
+        best = min(best, float(np.linalg.norm(q - (a + ab * s))))
+    return best
+
+
 def mesh_distance(A, B, C, p):
     """(distance, argmin triangle, closest point, feature, second-best distance among triangles whose closest point differs)"""
     pts, d, feat = closest_all(A, B, C, p)
